@@ -137,6 +137,35 @@ class Tracer:
             et = getattr(h, "_event_time", None)
             if et is not None and hasattr(et, "quotient"):
                 d["initial_event_time"] = [f2b(et.quotient), f2b(et.remainder)]
+            # stateless helper objects of the handler (potentials, bounding potentials, estimators' potentials): their
+            # derivative at fixed probe points.  A resumed (unpickled) handler must compute with the same numbers.
+            probes = {}
+            objs = [(a, getattr(h, a, None)) for a in ("_potential", "_bounding_potential")]
+            est = getattr(h, "_estimator", None)
+            if est is not None:
+                objs.append(("_estimator._potential", getattr(est, "_potential", None)))
+            L = [x for x in hypercuboid_setting.system_lengths]
+            for name, o in objs:
+                if o is None or not hasattr(o, "derivative"):
+                    continue
+                vals = []
+                for frac in ((0.11, 0.27, 0.33), (-0.49, 0.02, 0.48), (0.3, -0.41, -0.07)):
+                    for dd in range(setting.dimension):
+                        vel = [0.0] * setting.dimension
+                        vel[dd] = 1.0
+                        sep = [frac[k % 3] * L[k] for k in range(setting.dimension)]
+                        try:
+                            r = o.derivative(vel, sep, 1.0, -1.0)
+                        except TypeError:
+                            try:
+                                r = o.derivative(vel, sep)
+                            except Exception as e:  # noqa
+                                r = type(e).__name__
+                        except Exception as e:  # noqa
+                            r = type(e).__name__
+                        vals.append(f2b(r) if isinstance(r, float) else repr(r))
+                probes[name] = vals
+            d["potential_probes"] = probes
             meta["handlers"].append(d)
         for s in act._internal_states:
             d = {"class": type(s).__name__}
